@@ -5,11 +5,13 @@
 package c10
 
 import (
+	goErr "errors"
 	"fmt"
 	"strings"
 	"testing"
 
 	"github.com/cockroachdb/errors"
+	"github.com/cockroachdb/errors/join"
 	"pgregory.net/rapid"
 
 	"verif/gen"
@@ -140,6 +142,37 @@ func check(c *pbt.Case, r *pbt.R) {
 			}
 			if !a2 {
 				r.Failf("a wrapper loses an As match of the wrapped error", "kind %s, target %T\nspec %s", n.K, t1, c.Spec)
+			}
+		}
+	}
+	// Join copies its arguments (as the standard library's does): reusing
+	// the slice behind the variadic argument list after the call does
+	// not change the error that was built from it. (Not demanded of
+	// WithTelemetry, which keeps the caller's slice on the unchanged
+	// tree; no listed property forbids that.)
+	for _, n := range c.Spec.Nodes() {
+		switch n.K {
+		case "join", "subjoin":
+			var xs []error
+			for _, x := range n.X {
+				xs = append(xs, b.Of[x])
+			}
+			args := gen.JoinArgs(n.I[0], xs)
+			var j error
+			if n.K == "join" {
+				j = errors.Join(args...)
+			} else {
+				j = join.Join(args...)
+			}
+			if j == nil {
+				continue
+			}
+			before := j.Error()
+			for i := range args {
+				args[i] = goErr.New("clobbered")
+			}
+			if after := j.Error(); after != before {
+				r.Failf("an error changes when the caller reuses the slice its constructor was given: "+n.K, "%q -> %q\nspec %s", before, after, c.Spec)
 			}
 		}
 	}
